@@ -3049,16 +3049,10 @@ class Parameters:
                                    watcher.fn)
             async_executor(partial(watcher.fn, *args, **kwargs))
         else:
-            # What the callback itself assigns is an ordinary assignment,
-            # also while it is being called on behalf of param.trigger
-            TRIGGER = self._TRIGGER
-            self._TRIGGER = False
             try:
                 watcher.fn(*args, **kwargs)
             except Skip:
                 pass
-            finally:
-                self._TRIGGER = TRIGGER
 
     def _call_watcher(self_, watcher, event):
         """Invoke the given watcher appropriately given an Event object."""
